@@ -5,8 +5,10 @@ import (
 	"flag"
 	"fmt"
 	"os"
+	"os/exec"
 	"path/filepath"
 	"runtime/debug"
+	"sort"
 	"strconv"
 	"strings"
 
@@ -47,6 +49,7 @@ func main() {
 		rep.Fail("%v", err)
 		os.Exit(rep.Finish(*verif, *evid, known, cmdline))
 	}
+	rules.Thorough = *tier == "thorough"
 	rep.Floor("packages", len(p.Initial), 20)
 	rep.Floor("repo_functions", len(p.RepoFns), 500)
 	rep.Analysed["ssa_functions_total"] = len(p.All)
@@ -73,7 +76,76 @@ func main() {
 			}
 		}
 	}
+	if *tier == "thorough" && os.Getenv("VERIF_NO_SENSITIVITY") == "" {
+		rep.Extra["sensitivity"] = sensitivity(*verif, *repo, *prop)
+	}
 	os.Exit(rep.Finish(*verif, *evid, known, cmdline))
+}
+
+// sensitivity re-runs the property's rules on variants of the analysed tree: the current working
+// tree of -repo plus one patch from <verif>/mutants/<prop>/ each, in a scratch copy outside the
+// repository (removed afterwards). It measures whether the rules still notice each seeded break
+// on today's code; it never changes the verdict about the tree itself. A patch that no longer
+// applies or compiles is counted as skipped.
+func sensitivity(verif, repo, prop string) map[string]any {
+	res := map[string]any{"what": "each variant = current tree + one patch from mutants/" + prop + "; the quick rules must report a violation on it"}
+	patches, _ := filepath.Glob(filepath.Join(verif, "mutants", prop, "*.diff"))
+	sort.Strings(patches)
+	self, err := os.Executable()
+	if err != nil {
+		res["error"] = err.Error()
+		return res
+	}
+	var caught, missed, skipped []string
+	for _, pt := range patches {
+		name := strings.TrimSuffix(filepath.Base(pt), ".diff")
+		scratch, err := os.MkdirTemp("", "vsens.")
+		if err != nil {
+			skipped = append(skipped, name+": "+err.Error())
+			continue
+		}
+		func() {
+			defer os.RemoveAll(scratch)
+			tree := filepath.Join(scratch, "tree")
+			vdir := filepath.Join(scratch, "verif")
+			os.MkdirAll(tree, 0o755)
+			os.MkdirAll(vdir, 0o755)
+			if b, err := os.ReadFile(filepath.Join(verif, "known_findings.json")); err == nil {
+				os.WriteFile(filepath.Join(vdir, "known_findings.json"), b, 0o644)
+			}
+			if out, err := exec.Command("rsync", "-a", "--exclude", ".git", repo+"/", tree+"/").CombinedOutput(); err != nil {
+				skipped = append(skipped, name+": copy failed: "+strings.TrimSpace(string(out)))
+				return
+			}
+			patch := exec.Command("patch", "-p1", "-s", "-i", pt)
+			patch.Dir = tree
+			if _, err := patch.CombinedOutput(); err != nil {
+				skipped = append(skipped, name+": patch does not apply to the current tree")
+				return
+			}
+			build := exec.Command("go", "build", "./...")
+			build.Dir = tree
+			if _, err := build.CombinedOutput(); err != nil {
+				skipped = append(skipped, name+": variant does not compile")
+				return
+			}
+			run := exec.Command(self, "-repo", tree, "-verif", vdir, "-prop", prop, "-tier", "quick", "-evidence", filepath.Join(scratch, "ev.json"))
+			out, _ := run.CombinedOutput()
+			if run.ProcessState != nil && run.ProcessState.ExitCode() == 1 && strings.Contains(string(out), "VIOLATION property="+prop) {
+				caught = append(caught, name)
+			} else {
+				missed = append(missed, name)
+			}
+		}()
+	}
+	res["variants"] = len(patches)
+	res["caught"] = len(caught)
+	res["missed"] = missed
+	res["skipped"] = skipped
+	if len(missed) > 0 {
+		fmt.Printf("SENSITIVITY-MISS property=%s variants not reported: %s\n", prop, strings.Join(missed, ", "))
+	}
+	return res
 }
 
 func isFlagSet(name string) bool {
